@@ -139,13 +139,21 @@ def Mirror (s : St) (v : MView) : Prop := v.live = s.live ∧ v.jn = s.stJn ∧ 
 def MirrorE (s : St) (e : MRec) (v : MView) : Prop :=
   v.live = applyEdit s.live e ∧ v.jn = e.jn.getD s.stJn ∧ v.sq = e.sq.getD s.stSq
 
+/-- … or, between a commit that failed after its edit reached the manifest `CURRENT` names and the next successful
+    `newManifest`, that view is one edit (`St.limbo`) ahead of the session -/
+def MirrorL (s : St) (v : MView) : Prop :=
+  match s.limbo with
+  | none => Mirror s v
+  | some u => MirrorE s u v
+
 instance (s : St) (v : MView) : Decidable (Mirror s v) := by unfold Mirror; infer_instance
 instance (s : St) (e : MRec) (v : MView) : Decidable (MirrorE s e v) := by unfold MirrorE; infer_instance
+instance (s : St) (v : MView) : Decidable (MirrorL s v) := by unfold MirrorL; split <;> infer_instance
 
 /-- the view of the manifest `CURRENT` names is `P`; if this process has written it (`manifestOpen`), it has
     no unsynced tail (the manifest inherited from a previous process may have one after a clean exit) -/
 def Settled (cfg : Cfg) (s : St) (d : Disk) (P : MView → Prop) : Prop :=
-  Holds (curManifest d) fun mf => (s.manifestOpen = true → mf.unsynced = []) ∧ Holds (lastView cfg d) P
+  Holds (curManifest d) fun mf => (s.manifestOpen = true → s.limbo = none → mf.unsynced = []) ∧ Holds (lastView cfg d) P
 
 instance (cfg : Cfg) (s : St) (d : Disk) (P : MView → Prop) [DecidablePred P] : Decidable (Settled cfg s d P) := by
   unfold Settled; infer_instance
@@ -168,7 +176,8 @@ def JPc.post : JPc → Bool
   | _ => false
 
 /-- a transaction's edit is in the manifest, `db.setSeq(tr.seq)` is still to come -/
-def TrWindow (s : St) : Prop := Holds s.job fun j => j.kind = .tr ∧ j.pc.beforeCommit = false
+def TrWindow (s : St) : Prop :=
+  Holds s.job fun j => j.kind = .tr ∧ (j.pc.beforeCommit = false ∨ s.limbo.isSome = true)
 
 instance (s : St) : Decidable (TrWindow s) := by unfold TrWindow; infer_instance
 
@@ -180,7 +189,7 @@ def sqCap (s : St) (j : Job) : Nat :=
     transaction and its `setSeq` -/
 def seqHi (s : St) : Nat :=
   match s.job with
-  | some j => if j.pc.beforeCommit = false then sqCap s j else s.seq
+  | some j => if j.pc.beforeCommit = false ∨ s.limbo.isSome = true then sqCap s j else s.seq
   | none => s.seq
 
 /-- facts about the views of the admissible range that involve the in-memory state -/
@@ -195,7 +204,8 @@ instance (cfg : Cfg) (s : St) (d : Disk) : Decidable (ViewBounds cfg s d) := by 
 def MfdOK (s : St) (d : Disk) : Prop :=
   match s.job.map (·.pc) with
   | some (JPc.rotRemove m) => d.current = some m
-  | _ => s.manifestFd = d.current
+  | _ => s.manifestFd = d.current ∨
+      (s.limbo.isSome = true ∧ Holds s.manifestFd fun o => Holds d.current fun c => o < c)
 
 instance (s : St) (d : Disk) : Decidable (MfdOK s d) := by unfold MfdOK; split <;> infer_instance
 
@@ -254,7 +264,7 @@ def FrozenFacts (cfg : Cfg) (s : St) (d : Disk) (fz : List Grp) (jf : Nat) : Pro
   jf < s.jcur ∧ s.frozenSeq ≤ s.seq ∧ (∀ g ∈ fz, g.fin ≤ s.frozenSeq + 1) ∧
   (∀ p ∈ d.journals, p.1 = s.jcur → ∀ g ∈ p.2.all, s.frozenSeq < g.seq) ∧
   (∀ p ∈ d.journals, p.1 = jf → JournalHolds s p.2 fz s.frozenSeq) ∧
-  (FlushPending s → (∃ p ∈ d.journals, p.1 = jf) ∧ Holds (lastView cfg d) fun v => v.jn ≤ jf ∧ v.sq ≤ s.frozenSeq)
+  (FlushPending s → (∃ p ∈ d.journals, p.1 = jf) ∧ s.stJn ≤ jf ∧ s.stSq ≤ s.frozenSeq)
 
 instance (cfg : Cfg) (s : St) (d : Disk) (fz : List Grp) (jf : Nat) : Decidable (FrozenFacts cfg s d fz jf) := by
   unfold FrozenFacts; infer_instance
@@ -281,6 +291,37 @@ def TrOK (s : St) : Prop :=
 
 instance (s : St) : Decidable (TrOK s) := by unfold TrOK; infer_instance
 
+/-- is the job at a pc of the retry of a commit through `newManifest`? -/
+def JPc.retry : JPc → Bool
+  | .append | .rotWrite _ | .rotSync _ | .rotSetMeta _ => true
+  | _ => false
+
+/-- the edit of a transaction that was discarded after its commit had failed: one table with one group, reported
+    as failed, its sequence numbers consumed, below the outputs of any later job -/
+def OrphanOK (s : St) (d : Disk) (u : MRec) : Prop :=
+  u.deleted = [] ∧ u.jn = none ∧ Holds u.added.head? fun t => u.added = [t] ∧ t < s.nextFile ∧
+    Holds (lookup d.tables t) fun tf => tf.synced = true ∧ tf.bad = false ∧ Holds tf.grps.head? fun g =>
+      tf.grps = [g] ∧ u.sq = some (g.fin - 1) ∧ g ∉ must s ∧ g.recs ≠ [] ∧ g.fin ≤ s.seq + 1 ∧
+      Holds' s.job fun j => ∀ o ∈ j.outs, t < o.1
+
+instance (s : St) (d : Disk) (u : MRec) : Decidable (OrphanOK s d u) := by unfold OrphanOK; infer_instance
+
+/-- what is known while the storage is one edit (`u = s.limbo`) ahead of the session: the session's tables lie below
+    what the edit adds and their groups below the session's sequence number; the edit is that of the job that is
+    retrying its commit, or that of a discarded transaction -/
+def LimboFacts (s : St) (d : Disk) (u : MRec) : Prop :=
+  s.manifestFailed = true ∧ u.torn = false ∧ u.snapshot = false ∧
+    s.stJn ≤ u.jn.getD s.stJn ∧ s.stSq ≤ u.sq.getD s.stSq ∧
+    (∀ t ∈ s.live, (∀ a ∈ u.added, t < a) ∧ ∀ g ∈ tableGrpsOf d t, g.fin ≤ s.stSq + 1) ∧
+    (Holds' s.job fun j => j.edit = none ∨ j.pc.beforeCommit = true) ∧
+    ((Holds s.job fun j => j.edit = some u ∧ j.pc.retry = true) ∨ OrphanOK s d u)
+
+instance (s : St) (d : Disk) (u : MRec) : Decidable (LimboFacts s d u) := by unfold LimboFacts; infer_instance
+
+def LimboOK (s : St) (d : Disk) : Prop := Holds' s.limbo (LimboFacts s d)
+
+instance (s : St) (d : Disk) : Decidable (LimboOK s d) := by unfold LimboOK; infer_instance
+
 /-- the writer and the buffers (running phase) -/
 structure RunOK (cfg : Cfg) (s : St) (d : Disk) : Prop where
   norecov : s.recov = none ∧ TrOK s
@@ -298,7 +339,8 @@ structure RunOK (cfg : Cfg) (s : St) (d : Disk) : Prop where
   /-- only the frozen and the current journal can be relevant -/
   rel : Holds (curManifest d) fun mf => Holds (viewAt cfg mf 0) fun v0 =>
     ∀ p ∈ d.journals, v0.jn ≤ p.1 → p.1 = s.jcur ∨ some p.1 = s.jfrozen ∨ Stale s p.2
-  nojob : s.job = none → Settled cfg s d (Mirror s)
+  nojob : s.job = none → Settled cfg s d (MirrorL s)
+  limbo : LimboOK s d
 
 instance (cfg : Cfg) (s : St) (d : Disk) : Decidable (RunOK cfg s d) :=
   decidable_of_iff
@@ -309,9 +351,9 @@ instance (cfg : Cfg) (s : St) (d : Disk) : Decidable (RunOK cfg s d) :=
      WSeqOK s ∧ FrozenOK cfg s d ∧
      (Holds (curManifest d) fun mf => Holds (viewAt cfg mf 0) fun v0 =>
        ∀ p ∈ d.journals, v0.jn ≤ p.1 → p.1 = s.jcur ∨ some p.1 = s.jfrozen ∨ Stale s p.2) ∧
-     (s.job = none → Settled cfg s d (Mirror s)))
-    ⟨fun ⟨a, b, c, e, f, g, h, i, k⟩ => ⟨a, b, c, e, f, g, h, i, k⟩,
-     fun ⟨a, b, c, e, f, g, h, i, k⟩ => ⟨a, b, c, e, f, g, h, i, k⟩⟩
+     (s.job = none → Settled cfg s d (MirrorL s)) ∧ LimboOK s d)
+    ⟨fun ⟨a, b, c, e, f, g, h, i, k, l⟩ => ⟨a, b, c, e, f, g, h, i, k, l⟩,
+     fun ⟨a, b, c, e, f, g, h, i, k, l⟩ => ⟨a, b, c, e, f, g, h, i, k, l⟩⟩
 
 /-- the recovery memdb is the content of the journal replayed last -/
 def MdbOK (s : St) (d : Disk) (r : Recov) : Prop :=
@@ -326,7 +368,7 @@ instance (s : St) (d : Disk) (r : Recov) : Decidable (MdbOK s d r) := by unfold 
 /-- `recoverJournal`'s loop (recovering phase) -/
 structure RecOK (cfg : Cfg) (s : St) (d : Disk) (r : Recov) : Prop where
   mfd : MfdOK s d
-  idle : s.w = .idle ∧ s.frozen = none ∧ s.tr = none
+  idle : s.w = .idle ∧ s.frozen = none ∧ s.tr = none ∧ s.limbo = none
   todoSorted : r.todo.Pairwise (· < ·)
   ofdLt : ∀ o, r.ofd = some o → ∀ n ∈ r.todo, o < n
   nums : (∀ p ∈ d.journals, p.1 < s.nextFile) ∧ Holds d.current (· < s.nextFile) ∧ ∀ n ∈ r.todo, n < s.nextFile
@@ -343,7 +385,7 @@ structure RecOK (cfg : Cfg) (s : St) (d : Disk) (r : Recov) : Prop where
 
 instance (cfg : Cfg) (s : St) (d : Disk) (r : Recov) : Decidable (RecOK cfg s d r) :=
   decidable_of_iff
-    (MfdOK s d ∧ (s.w = .idle ∧ s.frozen = none ∧ s.tr = none) ∧ r.todo.Pairwise (· < ·) ∧
+    (MfdOK s d ∧ (s.w = .idle ∧ s.frozen = none ∧ s.tr = none ∧ s.limbo = none) ∧ r.todo.Pairwise (· < ·) ∧
      (∀ o, r.ofd = some o → ∀ n ∈ r.todo, o < n) ∧
      ((∀ p ∈ d.journals, p.1 < s.nextFile) ∧ Holds d.current (· < s.nextFile) ∧ ∀ n ∈ r.todo, n < s.nextFile) ∧
      (∀ p ∈ d.journals, p.1 ∈ r.todo → ∀ g ∈ p.2.all, s.seq ≤ g.seq ∨ g ∉ must s) ∧ MdbOK s d r ∧
@@ -356,17 +398,17 @@ instance (cfg : Cfg) (s : St) (d : Disk) (r : Recov) : Decidable (RecOK cfg s d 
 
 /-- what a job at `pc` knows about the manifest tail and the session mirror; `e` is its edit -/
 def JobManifest (cfg : Cfg) (s : St) (d : Disk) (e : MRec) : JPc → Prop
-  | .tCreate _ | .tWrite _ | .tSync _ | .mkJournal | .append => Settled cfg s d (Mirror s)
+  | .tCreate _ | .tWrite _ | .tSync _ | .mkJournal | .append => Settled cfg s d (MirrorL s)
   | .earlyRm => False
   | .rotWrite m =>
-    Settled cfg s d (Mirror s) ∧ some m ≠ d.current ∧ m < s.nextFile ∧ lookup d.manifests m = some ⟨[], []⟩
+    Settled cfg s d (MirrorL s) ∧ (some m ≠ d.current ∧ Holds d.current (· < m)) ∧ m < s.nextFile ∧ lookup d.manifests m = some ⟨[], []⟩
   | .rotSync m =>
-    Settled cfg s d (Mirror s) ∧ some m ≠ d.current ∧ m < s.nextFile ∧
+    Settled cfg s d (MirrorL s) ∧ (some m ≠ d.current ∧ Holds d.current (· < m)) ∧ m < s.nextFile ∧
     Holds (lookup d.manifests m) fun mf => Holds mf.unsynced.head? fun r =>
       mf = ⟨[], [{ snapshotRec cfg s e with nf := r.nf }]⟩ ∧ m < r.nf ∧ r.nf ≤ s.nextFile ∧
       (∀ t ∈ applyEdit s.live e, t < r.nf) ∧ e.jn.getD s.stJn < r.nf
   | .rotSetMeta m =>
-    Settled cfg s d (Mirror s) ∧ some m ≠ d.current ∧ m < s.nextFile ∧
+    Settled cfg s d (MirrorL s) ∧ (some m ≠ d.current ∧ Holds d.current (· < m)) ∧ m < s.nextFile ∧
     Holds (lookup d.manifests m) fun mf => Holds mf.synced.head? fun r =>
       mf = ⟨[{ snapshotRec cfg s e with nf := r.nf }], []⟩ ∧ m < r.nf ∧ r.nf ≤ s.nextFile ∧
       (∀ t ∈ applyEdit s.live e, t < r.nf) ∧ e.jn.getD s.stJn < r.nf
@@ -378,7 +420,7 @@ def JobManifest (cfg : Cfg) (s : St) (d : Disk) (e : MRec) : JPc → Prop
         r.nf ≤ s.nextFile) ∧ Holds (viewAt cfg mf 0) (Mirror s)
   | .install => s.manifestOpen = true ∧ Settled cfg s d (MirrorE s e)
   | .rmJ _ | .rmT _ | .rmM _ | .done =>
-    s.manifestOpen = true ∧ Settled cfg s d (Mirror s) ∧ ∀ x, e.jn = some x → s.stJn = x
+    s.manifestOpen = true ∧ Settled cfg s d (MirrorL s) ∧ ∀ x, e.jn = some x → s.stJn = x
 
 instance (cfg : Cfg) (s : St) (d : Disk) (e : MRec) (pc : JPc) : Decidable (JobManifest cfg s d e pc) := by
   cases pc <;> simp only [JobManifest] <;> infer_instance
@@ -467,8 +509,9 @@ def RemovalsOK (s : St) (d : Disk) (j : Job) (v : MView) : Prop :=
   match j.pc with
   | .rmJ rest => (∀ n ∈ rest, (n < v.jn ∨ (n < s.jcur ∧ ∀ p ∈ d.journals, p.1 = n → Stale0 s p.2)) ∧
         ∀ x, j.mkJournal = some x → n < x) ∧
-      (∀ t ∈ j.rmTables, t ∉ v.live) ∧ (j.kind = .compaction ∨ j.kind = .tr → rest = [])
-  | .rmT rest => ∀ t ∈ rest, t ∉ v.live
+      (∀ t ∈ j.rmTables, t ∉ v.live) ∧ (j.kind = .compaction ∨ j.kind = .tr → rest = []) ∧
+      (j.edit = none → ∀ n ∈ rest, n ∈ j.rmJournals)
+  | .rmT rest => (∀ t ∈ rest, t ∉ v.live) ∧ (j.edit = none → rest = [])
   | .rmM rest => ∀ m ∈ rest, some m ≠ d.current
   | _ => True
 
@@ -490,7 +533,7 @@ instance (s : St) (d : Disk) (j : Job) : Decidable (MkJournalOK s d j) := by
 def JobManifestOK (cfg : Cfg) (s : St) (d : Disk) (j : Job) : Prop :=
   match j.edit with
   | some e => JobManifest cfg s d e j.pc
-  | none => Settled cfg s d (Mirror s)
+  | none => Settled cfg s d (MirrorL s)
 
 instance (cfg : Cfg) (s : St) (d : Disk) (j : Job) : Decidable (JobManifestOK cfg s d j) := by
   unfold JobManifestOK; split <;> infer_instance
@@ -512,7 +555,7 @@ structure JobOK (cfg : Cfg) (s : St) (d : Disk) (j : Job) : Prop where
   /-- output table numbers are unused and above everything an admissible view knows -/
   fresh : (∀ o ∈ j.outs, o.1 < s.nextFile) ∧ (j.pc.beforeCommit = true →
     Holds (curManifest d) fun mf => ∀ k ≤ mf.unsynced.length, Holds (viewAt cfg mf k) fun v =>
-      (∀ o ∈ j.outs, v.nf ≤ o.1) ∧ ∀ n, j.mkJournal = some n → v.nf ≤ n)
+      (∀ o ∈ j.outs, v.nf ≤ o.1 ∨ (j.pc.retry = true ∧ s.limbo.isSome = true ∧ s.limbo = j.edit ∧ o.1 ∈ v.live)) ∧ ∀ n, j.mkJournal = some n → v.nf ≤ n)
   /-- the edit is well-formed -/
   shape : Holds' j.edit fun e => e.added = j.outs.map (·.1) ∧ e.torn = false ∧ e.snapshot = false
   tables : ∀ i o, j.outs[i]? = some o → OutOK d j.pc i o
@@ -528,13 +571,15 @@ structure JobOK (cfg : Cfg) (s : St) (d : Disk) (j : Job) : Prop where
   committed : j.pc.beforeCommit = false → Holds (lastView cfg d) fun v =>
     ∀ o ∈ j.outs, o.1 ∈ v.live ∧ lookup d.tables o.1 = some ⟨o.2, true, false⟩
 
+set_option synthInstance.maxSize 2000 in
+set_option synthInstance.maxHeartbeats 200000 in
 instance (cfg : Cfg) (s : St) (d : Disk) (j : Job) : Decidable (JobOK cfg s d j) :=
   decidable_of_iff
     ((j.outs.length ≤ 1 ∧ (j.rmTables = [] ∨ j.kind = .recovFinal ∨ j.kind = .compaction)) ∧ JobKindOK s j ∧
      JobManifestOK cfg s d j ∧
      ((∀ o ∈ j.outs, o.1 < s.nextFile) ∧ (j.pc.beforeCommit = true →
         Holds (curManifest d) fun mf => ∀ k ≤ mf.unsynced.length, Holds (viewAt cfg mf k) fun v =>
-          (∀ o ∈ j.outs, v.nf ≤ o.1) ∧ ∀ n, j.mkJournal = some n → v.nf ≤ n)) ∧
+          (∀ o ∈ j.outs, v.nf ≤ o.1 ∨ (j.pc.retry = true ∧ s.limbo.isSome = true ∧ s.limbo = j.edit ∧ o.1 ∈ v.live)) ∧ ∀ n, j.mkJournal = some n → v.nf ≤ n)) ∧
      (Holds' j.edit fun e => e.added = j.outs.map (·.1) ∧ e.torn = false ∧ e.snapshot = false) ∧
      (∀ i ∈ List.range j.outs.length, ∀ o, j.outs[i]? = some o → OutOK d j.pc i o) ∧
      PcIdxOK j ∧ MkJournalOK s d j ∧ Holds (lastView cfg d) (RemovalsOK s d j) ∧
@@ -562,14 +607,14 @@ structure Inv (cfg : Cfg) (s : St) (d : Disk) : Prop where
   bounds : s.phase ≠ .crashed → ViewBounds cfg s d
   run : s.phase = .running → RunOK cfg s d
   recov : s.phase = .recovering → Holds s.recov (RecOK cfg s d)
-  crashed : s.phase = .crashed → s.job = none ∧ s.w = .idle ∧ s.frozen = none ∧ s.tr = none
+  crashed : s.phase = .crashed → s.job = none ∧ s.w = .idle ∧ s.frozen = none ∧ s.tr = none ∧ s.limbo = none
   job : Holds' s.job (JobOK cfg s d)
 
 instance (cfg : Cfg) (s : St) (d : Disk) : Decidable (Inv cfg s d) :=
   decidable_of_iff
     (DiskOK cfg d (must s) (issuedGrps s) ∧ ManifestMono cfg d ∧ (s.phase ≠ .crashed → ViewBounds cfg s d) ∧
      (s.phase = .running → RunOK cfg s d) ∧ (s.phase = .recovering → Holds s.recov (RecOK cfg s d)) ∧
-     (s.phase = .crashed → s.job = none ∧ s.w = .idle ∧ s.frozen = none ∧ s.tr = none) ∧ Holds' s.job (JobOK cfg s d))
+     (s.phase = .crashed → s.job = none ∧ s.w = .idle ∧ s.frozen = none ∧ s.tr = none ∧ s.limbo = none) ∧ Holds' s.job (JobOK cfg s d))
     ⟨fun ⟨a, a', b, c, e, f, g⟩ => ⟨a, a', b, c, e, f, g⟩, fun ⟨a, a', b, c, e, f, g⟩ => ⟨a, a', b, c, e, f, g⟩⟩
 
 end GoLevel.Dur
